@@ -1,17 +1,20 @@
 #!/bin/sh
-# usage: build.sh <name> [asan]
+# usage: build.sh <name> [asan|asanlib]
 # builds harness/cxx/<name>.cpp against the library rebuilt from /repo's working tree (.build/repo-rel).
 # If the source contains Q_OBJECT, moc output is generated as <name>.moc (put `#include "<name>.moc"` at the end of the file).
 set -e
 V=$(cd "$(dirname "$0")/.." && pwd)
-N=$1; SAN=""
+R=${VERIF_REPO:-/repo}
+N=$1; SAN=""; LIB=$V/.build/repo-rel
 [ "$2" = "asan" ] && SAN="-fsanitize=address,undefined -fno-sanitize-recover=all -fno-omit-frame-pointer"
+# asanlib: additionally link against the sanitizer-instrumented library build (.build/repo-asan, built by vlib.build_repo(asan=True))
+[ "$2" = "asanlib" ] && SAN="-fsanitize=address,undefined -fno-sanitize-recover=all -fno-omit-frame-pointer" && LIB=$V/.build/repo-asan
 mkdir -p $V/.build/harness/moc_$N
 QTFLAGS=$(pkg-config --cflags Qt5Core Qt5Network Qt5Xml Qt5Test)
-INCS="-I$V/harness/cxx -I/repo/src/base -I/repo/src/client -I/repo/src/server -I/repo/tests -I$V/.build/repo-rel/src -I$V/.build/harness/moc_$N"
+INCS="-I$V/harness/cxx -I$R/src/base -I$R/src/client -I$R/src/server -I$R/tests -I$LIB/src -I$V/.build/harness/moc_$N"
 if grep -q Q_OBJECT $V/harness/cxx/$N.cpp; then
   moc $INCS $QTFLAGS -DQXMPP_VERIF $V/harness/cxx/$N.cpp -o $V/.build/harness/moc_$N/$N.moc
 fi
 exec g++ -std=c++20 -O1 -g $SAN -fPIC -DQXMPP_VERIF $INCS $QTFLAGS \
   $V/harness/cxx/$N.cpp -o $V/.build/harness/$N \
-  -L$V/.build/repo-rel/src -lQXmppQt5 $(pkg-config --libs Qt5Core Qt5Network Qt5Xml Qt5Test) -Wl,-rpath,$V/.build/repo-rel/src
+  -L$LIB/src -lQXmppQt5 $(pkg-config --libs Qt5Core Qt5Network Qt5Xml Qt5Test) -Wl,-rpath,$LIB/src
